@@ -36,12 +36,14 @@ def famTag : Fam → String | .v4 => "4" | .v6 => "6"
 
 def j (l : List String) : String := if l.isEmpty then "-" else ",".intercalate l
 
-def render (sim : Sim) : String :=
+def render (path : Option Path) (sim : Sim) : String :=
   let starts := sim.d.attempts.map fun a => s!"{famTag a.addr.fam}.{a.addr.id}@{a.start}"
   let res := match sim.d.result with
     | none => "pending"
-    | some (.ok i) => s!"ok.{i}@{sim.retAt}"
-    | some (.error e) => s!"err.{e}@{sim.retAt}"
+    | some r =>
+      match (match path with | some pa => dialUrlResult pa r | none => r) with
+      | .ok i => s!"ok.{i}@{sim.retAt}"
+      | .error e => s!"err.{e}@{sim.retAt}"
   let calls := match sim.stream with
     | .unfold s => s.calls.map fun (f, t) => s!"{famTag f}@{t}"
     | _ => []
@@ -51,12 +53,22 @@ def render (sim : Sim) : String :=
 def handleLine (payload : String) : String :=
   match tokens payload with
   | [prefer, host, i4, i6, sched] =>
-    if host = "noport" then "starts=- res=err.port@0 calls=-" else
+    let path : Option Path :=
+      if prefer.endsWith "d" then some .direct
+      else if prefer.endsWith "p" then some (.proxy 200)
+      else if prefer.endsWith "q" then some (.proxy 403)
+      else none
+    if host = "noport" then
+      let r : Except Err Nat := .error "port"
+      match (match path with | some pa => dialUrlResult pa r | none => r) with
+      | .ok _ => "bad-input"
+      | .error e => s!"starts=- res=err.{e}@0 calls=-"
+    else
     match parseHost host, parseImm i4, parseImm i6,
         ((if sched = "-" then [] else sched.splitOn ",").mapM fun g => (g.splitOn "+").mapM parseEv) with
     | some h, some i4, some i6, some groups =>
       let cfg : Config := { tmo := Generated.C15.dnsTimeout, imm4 := i4, imm6 := i6 }
-      render (simulate (prefer = "6") h cfg groups)
+      render path (simulate (prefer.startsWith "6") h cfg groups)
     | _, _, _, _ => "bad-input"
   | _ => "bad-input"
 
